@@ -90,7 +90,7 @@ def _field_ids(f, row, spec, m=None):
         for i in f.all_insts():
             if i.op == "load" and i.type == "i64":
                 base, path = ir.field_path(f.module, f, i.ops[0])
-                if base == ("a", k):
+                if base == ("a", k) and (spec.get("root") is None or i.id in spec["root"]):
                     ids += bits.field_values(f, ("i", i.id), spec["off"], spec["w"])
         if not ids:
             raise AnalysisBroken("row %s: no value in %s extracts bits [%d,%d) of an element loaded from %s"
@@ -139,6 +139,17 @@ def _assume_field(f, row, spec, values, assume, assume_def, need=True):
         raise AnalysisBroken("row %s: bit field [%d,%d) of %s is neither computed by a value of %s nor expressible on the parameter"
                              % (row["id"], spec["off"], spec["off"] + spec["w"], spec.get("param", spec.get("loadof")), f.name))
     return ids
+
+
+def _addr_key(f, o, depth=0):
+    """structural key of an address expression (same key = same address as long as the SSA values are the same)"""
+    if o[0] == "i" and depth < 20:
+        d = f.insts[o[1]]
+        if d.op in ("bitcast", "getelementptr"):
+            return (d.op,) + tuple(_addr_key(f, x, depth + 1) for x in d.ops)
+        if d.op in ("sext", "zext"):
+            return _addr_key(f, d.ops[0], depth + 1)
+    return tuple(o[:2]) if o[0] in ("i", "a", "g", "c") else (o[0],)
 
 
 def _fp_loads(m, f, row, spec):
@@ -211,6 +222,23 @@ def expand(m, f, row):
             for iid in ids:
                 d[iid] = ("fp", frozenset((cls,)))
             runs.append(("%s->%s is %s" % (row["fpfield"][0], row["fpfield"][1], cls), dict(base_a), d, (), None))
+    elif kind == "rel_field" and "loadof" in row["field"] and "root" not in row["field"]:
+        # one family of runs per load of an element: each visited element must be guarded on its own
+        lk = _param(f, row["field"]["loadof"], row)
+        roots = [i.id for i in f.all_insts() if i.op == "load" and i.type == "i64" and ir.field_path(m, f, i.ops[0])[0] == ("a", lk)
+                 and bits.field_values(f, ("i", i.id), row["field"]["off"], row["field"]["w"])]
+        if not roots:
+            raise AnalysisBroken("row %s: no element of %s has its resolution field read in %s" % (row["id"], row["field"]["loadof"], f.name))
+        # loads of the same address expression read the same element: they form one group, guarded by the first of them
+        groups = {}
+        for rid in roots:
+            groups.setdefault(_addr_key(f, f.insts[rid].ops[0]), []).append(rid)
+        for key, rids in groups.items():
+            sub = dict(row)
+            sub["field"] = dict(row["field"], root=rids)
+            for r_ in expand(m, f, sub):
+                runs.append(("element loaded at %s: %s" % (f.insts[rids[0]].where(), r_[0]),) + r_[1:])
+        return runs
     elif kind == "rel_field":
         k = _param(f, row["param"], row)
         w = _width(f, k)
@@ -326,7 +354,7 @@ def _check_row(ctx, get_module, row, rule, cfg):
                 if not good:
                     problems.append(("violation", "argument %d of the call to %s is not %s" % (k, row["call"], json.dumps(spec)), ci))
     for label, assume, assume_def, pairs, start in runs:
-        pl = WritePlugin(m, f, out_idx if out_idx is not None else must_idx, stop_on_success=not (expect_zero or expect_true))
+        pl = WritePlugin(m, f, out_idx if out_idx is not None else must_idx, stop_on_success=not (expect_zero or expect_true or row.get("expect_in")))
         ex = Explorer(f, assume=assume, assume_def=assume_def, plugin=pl, pairs=pairs, start_block=start or 0).run()
         nrets += len(ex.rets)
         if not ex.rets:
@@ -340,6 +368,11 @@ def _check_row(ctx, get_module, row, rule, cfg):
                     problems.append(("violation", "with %s the predicate returns a value that does not depend on the failed condition (can be true) at %s" % (label, where), t))
                 else:
                     problems.append(("broken", "under '%s' the value returned at %s cannot be evaluated" % (label, where), t))
+                continue
+            if row.get("expect_in"):
+                allowed = _ivs(av[1], row["expect_in"])
+                if minus(av, allowed)[2]:
+                    problems.append(("violation", "with %s the function can return %s, outside the documented %s, at %s" % (label, explore.fmt(av), row["expect_in"], where), t))
                 continue
             if expect_true:
                 bad = (singleton(av) != 1) if row.get("expect") == "one" else (not is_empty(inter(av, const(0, av[1]))))
